@@ -20,6 +20,12 @@ for job in json.load(open(jobfile)):
     try:
         m = LinearIR.FilesystemModuleLoader().Load(job["path"])
         rec["listing"] = irproj.listing(m, LinearIR)
+        # the same file once more under a name that every module of this process is stored to in turn
+        # (store A to P, load P, store B to P, load P): the loader must return what the file holds now
+        import shutil
+        shared = f"same-name-{os.getpid()}"          # one name per loader process: several loader processes share the directory
+        shutil.copyfile(job["path"], shared + ".nslir")
+        rec["listing_same_name"] = irproj.listing(LinearIR.FilesystemModuleLoader().Load(shared), LinearIR)
         rec["proj"] = irproj.project_module(m, LinearIR)
         program = A.link(m)
         rec["runs"] = []
